@@ -72,6 +72,14 @@ type PkgContracts struct {
 	Uninterp  map[string]bool
 	GhostFields map[string]bool // accessor function names that denote ghost heap fields
 	Axioms    []*Clause
+	Memos     []MemoDecl
+}
+
+// MemoDecl: `//@ memo T.f pred` — field f of T is a memo cell; pred is a ghost method of *T that states
+// what the cell may hold (in terms of data that does not change once the object is built).
+type MemoDecl struct {
+	Type, Field, Pred string
+	Line              string
 }
 
 var clauseKW = map[string]bool{"ints": true, "safety": true, "requires": true, "ensures": true, "aux": true, "modifies": true,
@@ -102,7 +110,7 @@ func ParseContracts(filename, pkgPath string, src []byte) (*PkgContracts, error)
 			continue
 		}
 		first := strings.FieldsFunc(trim, func(r rune) bool { return r == ' ' || r == '[' || r == '\t' })[0]
-		isNew := clauseKW[first] || first == "func" || first == "ghost" || first == "lemma" || first == "import" || first == "axiom" || first == "iface"
+		isNew := clauseKW[first] || first == "func" || first == "ghost" || first == "lemma" || first == "import" || first == "axiom" || first == "iface" || first == "memo"
 		if isNew || len(items) == 0 {
 			items = append(items, item{trim, i + 1})
 		} else {
@@ -128,7 +136,7 @@ func ParseContracts(filename, pkgPath string, src []byte) (*PkgContracts, error)
 					return nil, fmt.Errorf("%s: bad ghost field", loc)
 				}
 				typ := strings.Join(f[3:], " ")
-				fn := "g_" + f[2]
+				fn := "G_" + f[2]
 				pc.Ghost = append(pc.Ghost, GhostDecl{Src: fmt.Sprintf("func %s(__o %s) (__r %s) { return }", fn, f[1], typ)})
 				pc.GhostFields[fn] = true
 			} else {
@@ -151,6 +159,14 @@ func ParseContracts(filename, pkgPath string, src []byte) (*PkgContracts, error)
 				}
 				pc.Ghost = append(pc.Ghost, gd)
 			}
+			cur = nil
+		case "memo":
+			f := strings.Fields(text)
+			if len(f) != 3 || !strings.Contains(f[1], ".") {
+				return nil, fmt.Errorf("%s: memo <Type>.<field> <ghost predicate method>", loc)
+			}
+			i := strings.Index(f[1], ".")
+			pc.Memos = append(pc.Memos, MemoDecl{Type: f[1][:i], Field: f[1][i+1:], Pred: f[2], Line: loc})
 			cur = nil
 		case "axiom":
 			m := regexp.MustCompile(`^axiom(\[[^\]]+\])?\s*(.*)$`).FindStringSubmatch(text)
